@@ -132,8 +132,9 @@ class QModuleMixin(ABC):
                     self.weight_group_size = group_size
         self.activation_qtype = activations
         self.optimizer = optimizer
-        self.register_buffer("input_scale", torch.ones(()))
-        self.register_buffer("output_scale", torch.ones(()))
+        # The scales must have the dtype and device of the module, like the scales evaluated by the calibration
+        self.register_buffer("input_scale", torch.ones((), dtype=self.weight.dtype, device=self.weight.device))
+        self.register_buffer("output_scale", torch.ones((), dtype=self.weight.dtype, device=self.weight.device))
 
     def _save_to_state_dict(self, destination, prefix, keep_vars):
         if self.weight_qtype is None or not self.frozen:
